@@ -25,8 +25,6 @@ ASSUMPTIONS = ["guards matched structurally; Optional-ness from declared annotat
 
 OPT_CLASSES = [DEV, "pulser.channels.base_channel.Channel", "pulser.channels.eom.BaseEOM"]
 NONE_EXCEPTIONS = {
-    "BaseDevice._validate_atom_number|max_atom_num": "the only caller (_validate_coords) skips the call when `max_atom_num` is an optional parameter and None; for a physical Device max_atom_num is not optional and Device.__post_init__ rejects None",
-    "BaseDevice._validate_radial_distance|max_radial_distance": "the only caller (_validate_coords) skips the call when `max_radial_distance` is an optional parameter and None; for a physical Device it is mandatory",
     "Hamiltonian._construct_hamiltonian.make_xy_term|interaction_coeff_xy": "make_xy_term runs only in XY mode, i.e. with a Microwave channel declared, and BaseDevice.__post_init__ requires interaction_coeff_xy to be a float when a Microwave channel exists",
 }
 
@@ -109,4 +107,24 @@ def run(E: Engine, rep: Report, tier: str) -> dict:
     for need in ("BaseDevice.validate_register", "BaseDevice.validate_layout", "BaseDevice.validate_layout_filling"):
         rep.check(need in callees, "DISPATCH", f"Sequence.__init__|calls-{need.split('.')[-1]}", "sequence creation validates the register against the device", f"Sequence.__init__ no longer calls {need}", E.where(init))
     rep.floor("DISPATCH", 9)
+
+    # ---------------------------------------------------------- CLOSURE
+    # device-aware layout generation: enough traps for the maximum filling (n <= int(traps * filling) needs traps >= ceil(n / filling))
+    gen = E.fn("pulser.register._layout_gen.generate_trap_coordinates")
+    abg = abstractor(E.flow(gen))
+    mt = [n for n in ast.walk(gen.node) if isinstance(n, ast.Assign) and isinstance(n.targets[0], ast.Name) and n.targets[0].id == "min_traps"]
+    ok = False
+    for n in mt:
+        v = abg.av(n.value)
+        ok = "max_layout_filling" in v.roots and "ceil" in v.tags and "Div" in v.tags and "max" in v.tags and not any(t.startswith("round") for t in v.tags) and "floor" not in v.tags
+    rep.check(ok, "CLOSURE", "generate_trap_coordinates|min_traps>=ceil(n/max_filling)", "the layout gets at least ceil(n_atoms / max_layout_filling) traps", "the automatic layout no longer guarantees ceil(n_atoms / max_layout_filling) traps: the generated register can exceed the device's maximum filling and be rejected by that same device", E.where(gen))
+    tt = [n for n in ast.walk(gen.node) if isinstance(n, ast.Assign) and isinstance(n.targets[0], ast.Name) and n.targets[0].id == "target_traps" and isinstance(n.value, ast.Call) and (dotted(n.value.func) or "") == "max"]
+    rep.check(any("min_traps" in [norm(a) for a in n.value.args] for n in tt), "CLOSURE", "generate_trap_coordinates|target>=min_traps", "target_traps = max(optimal, min_traps)", "the target number of traps can fall below the minimum", E.where(gen))
+    short = any(isinstance(n, ast.If) and isinstance(n.test, ast.Compare) and isinstance(n.test.ops[0], ast.Lt) and "len(traps)" in norm(n.test.left) and norm(n.test.comparators[0]) == "min_traps" and any(isinstance(x, ast.Raise) for x in n.body) for n in ast.walk(gen.node))
+    rep.check(short, "CLOSURE", "generate_trap_coordinates|fails-if-too-few-traps", "raises when fewer than min_traps sites were found", "generate_trap_coordinates can return fewer traps than the minimum", E.where(gen))
+    wal = E.fn("pulser.register.register.Register.with_automatic_layout")
+    src = norm(wal.node)
+    for need in ("max_layout_filling", "min_atom_distance", "max_radial_distance", "min_layout_traps", "max_layout_traps"):
+        rep.check(f"device.{need}" in src, "CLOSURE", f"Register.with_automatic_layout|uses-device.{need}", "the device's own limit is handed to the generator", f"with_automatic_layout no longer uses device.{need}", E.where(wal))
+    rep.floor("CLOSURE", 7)
     return {"functions_analysed": len(fns), "none_rule": st}
